@@ -721,7 +721,7 @@ Proof.
   intros ops dels H. unfold log_once in H.
   destruct (pairs_of ops dels) as [ps|] eqn:P; [|rewrite andb_false_r in H; discriminate].
   repeat (apply andb_prop in H; destruct H as [H ?]).
-  rename H into N1, H3 into N2, H2 into N3, H1 into N4, H4 into Fsz, H0 into Fc.
+  apply andb_prop in H0. destruct H0 as [Fsz Fc]. rename H into N1, H3 into N2, H2 into N3, H1 into N4.
   split; [apply nodup_z_sound; exact N3|]. split; [apply nodup_z_sound; exact N4|].
   intros d I. destruct (pairs_of_some _ _ _ P d I) as (s & r & Fs & Fr & Ip).
   exists s, r. unfold find_send in Fs. unfold find_recv in Fr.
@@ -744,7 +744,7 @@ Definition Spec_oldest (ops : list op) (dels : list delivery) : Prop :=
 Theorem oracle_oldest_sound : forall ops dels, log_oldest ops dels = true -> Spec_oldest ops dels.
 Proof.
   intros ops dels H. unfold log_oldest in H. destruct (pairs_of ops dels) as [ps|] eqn:P; [|discriminate].
-  exists ps. split; [reflexivity|]. intros p Ip s' Is' L C. rewrite forallb_forall in H. specialize (H _ Ip).
+  exists ps. split; [exact P|]. intros p Ip s' Is' L C. rewrite forallb_forall in H. specialize (H _ Ip).
   rewrite forallb_forall in H. specialize (H _ Is'). apply orb_prop in H. destruct H as [H|H].
   - apply negb_true_iff in H. apply andb_false_iff in H. destruct H as [H|H]; [lia|congruence].
   - apply existsb_exists in H. destruct H as (p' & Ip' & H). exists p'. split; [exact Ip'|]. lia.
@@ -758,7 +758,7 @@ Definition Spec_no_missed (ops : list op) (dels : list delivery) : Prop :=
 Theorem oracle_no_missed_sound : forall ops dels, log_no_missed ops dels = true -> Spec_no_missed ops dels.
 Proof.
   intros ops dels H. unfold log_no_missed in H. destruct (pairs_of ops dels) as [ps|] eqn:P; [|discriminate].
-  exists ps. split; [reflexivity|]. intros s r Is Ir C. rewrite forallb_forall in H. specialize (H _ Is).
+  exists ps. split; [exact P|]. intros s r Is Ir C. rewrite forallb_forall in H. specialize (H _ Is).
   apply orb_prop in H. destruct H as [H|H].
   - left. apply existsb_exists in H. destruct H as (p & Ip & E). exists p. split; [exact Ip|lia].
   - rewrite forallb_forall in H. specialize (H _ Ir). apply orb_prop in H. destruct H as [H|H].
